@@ -35,6 +35,7 @@ fn main() {
         "unicode-names" => c01::unicode_names(rest),
         "reader-replay" => big_stack(move || reader::replay(&rest2)),
         "reader-respell" => big_stack(move || reader::respell(&rest2)),
+        "fe-run" => big_stack(move || frontend::run(&rest2)),
         "c01-replay" => big_stack(move || c01::replay(&rest2)),
         "stack-replay" => stack::replay(rest),
         "stack-emit" => stack::emit(rest),
